@@ -183,9 +183,11 @@ TokInit == Ctx(<<SelfBase(Add(SelfThr, U(450))), Other, Eject7(U(300)), Eject8>>
 TokInitBig == Ctx(<<SelfBase(Neg(U(200))), Other, Eject7(U(300)), Eject8>>, Priv(5, 6, 5, 5, 5))
 Xfer(d, a, l) == Step(20, Regs6(d, a, l, A(32, 1200), Z, Z), U(1000))
 NewC(h, l) == Step(18, Regs6(HashAt(h), l, U(3), U(4), Z, Z), U(1000))
+\* creation with a gratis offset f (the caller of the token contexts is the manager, so f # 0 is allowed)
+NewF(h, l, f) == Step(18, Regs6(HashAt(h), l, U(3), U(4), f, Z), U(1000))
 TokAlphabet == <<Xfer(U(6), U(200), U(7)), Xfer(U(6), U(250), U(7)), Xfer(U(6), U(249), U(100)), Xfer(U(6), Z, U(7)), Xfer(U(6), U(1), U(6)),
                  Xfer(U(7), U(100), Z), Xfer(U(99), U(1), Z), Xfer(U(6), UMax, U(7)), Xfer(Ext8(LE(70000, 4)), U(50), Z),
-                 NewC(0, Z), NewC(7, U(5)), NewC(0, U(48)), NewC(0, U(49)), NewC(0, Top32),
+                 NewC(0, Z), NewC(7, U(5)), NewC(0, U(48)), NewC(0, U(49)), NewC(0, Top32), NewF(7, Z, U(150)),
                  Step(21, Regs6(U(7), HashAt(3), Z, Z, Z, Z), U(1000)), Step(21, Regs6(U(8), HashAt(3), Z, Z, Z, Z), U(1000)),
                  Step(19, Regs6(HashAt(2), U(9), U(8), Z, Z, Z), U(1000)), Step(17, Filler, U(1000))>>
 \* C09 (MC_Footprint): caller 5 with 60 tokens of headroom
